@@ -77,6 +77,7 @@ _RX = [
     ("pbkdf2_sha256", re.compile(r"^\$pbkdf2-sha256\$([ \t+_0-9]+)\$([^$]*)\$([^$]+)$")),
     ("pbkdf2_sha512", re.compile(r"^\$pbkdf2-sha512\$([ \t+_0-9]+)\$([^$]*)\$([^$]+)$")),
     ("phpass", re.compile(rf"^\$[PH]\$({_H})({_H}{{8}})({_H}{{22}})$")),
+    ("scrypt_7", re.compile(rf"^\$7\$({_H})({_H}{{5}})({_H}{{5}})([^$]*)\$({_H}+)$")),
     ("scrypt", re.compile(r"^\$scrypt\$ln=([ \t+_0-9]+),r=([ \t+_0-9]+),p=([ \t+_0-9]+)\$([^$]*)\$([^$]+)$")),
     ("ldap_salted_sha1", re.compile(r"^\{SSHA\}(.+)$", re.I | re.S)),
     ("ldap_sha1", re.compile(r"^\{SHA\}(.+)$", re.I | re.S)),
@@ -97,6 +98,7 @@ _RX = [
     ("mssql2000", re.compile(r"^0[xX]0100([0-9a-fA-F]{8})([0-9a-fA-F]{40})([0-9a-fA-F]{40})$")),
     ("mssql2005", re.compile(r"^0[xX]0100([0-9a-fA-F]{8})([0-9a-fA-F]{40})$")),
     ("oracle11", re.compile(r"^S:([0-9a-fA-F]{40})([0-9a-fA-F]{20})$", re.I)),
+    ("dlitz_pbkdf2_sha1", re.compile(rf"^\$p5k2\$([ \t+_0-9a-fA-F]*)\$({_H}*)\$([^$]+)$")),
     ("django_des_crypt", re.compile(rf"^crypt\$({_H}*)\$({_H}{{2}})({_H}{{11}})$")),
     ("bigcrypt", re.compile(rf"^({_H}{{2}})((?:{_H}{{11}})+)$")),
     ("scram", re.compile(r"^\$scram\$([ \t+_0-9]+)\$([^$]*)\$([^$]+)$")),
@@ -129,7 +131,7 @@ def extract(s, only=None):
         r = extract(s[len(prefix):], only=(inner,))
         return None if r is None else (only[0],) + tuple(r[1:])
     for name, rx in _RX:
-        if only and name not in only and not (name == "bcrypt_sha256_v1" and "bcrypt_sha256" in only):
+        if only and name not in only and not (name == "bcrypt_sha256_v1" and "bcrypt_sha256" in only) and not (name == "scrypt_7" and "scrypt" in only):
             continue
         m = rx.match(s)
         if not m:
@@ -193,6 +195,9 @@ def _decode(name, m):
     if name == "phpass":
         # '$P$' and '$H$' name the same algorithm; the identifier does not feed the digest
         return (name, (H64.index(g[0]),), g[1], g[2])
+    if name == "scrypt_7":
+        # the '$7$' spelling: ln as one hash64 character, r and p as 30-bit little-endian hash64 numbers, the salt as raw text
+        return ("scrypt", (H64.index(g[0]), h64_int_le(g[1]), h64_int_le(g[2])), g[3].encode("ascii"), g[4])
     if name == "scrypt":
         return (name, (_int(g[0], True), _int(g[1], True), _int(g[2], True)), b64std(g[3]), b64std(g[4]))
     if name == "ldap_salted_sha1":
@@ -243,6 +248,10 @@ def _decode(name, m):
         return (name, (), _hex(g[0]), _hex(g[1]))
     if name == "oracle11":
         return (name, (), _hex(g[1]), _hex(g[0]))
+    if name == "dlitz_pbkdf2_sha1":
+        # rounds in hexadecimal; an EMPTY field is the format's way of writing its default of 400 (0x190), so '$p5k2$$' and
+        # '$p5k2$190$' are one record. The salt is used as text; the digest is base64 with '.' for '+'
+        return (name, (int(g[0], 16) if g[0].strip() else 400,), g[1], ab64(g[2].replace("_", "/").replace("-", "+")))
     if name == "django_des_crypt":
         # 'crypt$<salt>$<des_crypt hash>'; Django >= 1.4 also writes an EMPTY salt field (the salt is the hash's first two characters
         # anyway) -- a documented second spelling of the same record; a non-empty field must agree with the hash
@@ -301,7 +310,7 @@ def extract_hex(s, n):
 # cost of a hash string for the policy model: (scheme family) -> integer, or None if the format has no cost
 _COST_FIELD = {"bcrypt": 1, "bcrypt_sha256": 2, "sha256_crypt": 0, "sha512_crypt": 0, "sha1_crypt": 0, "pbkdf2_sha1": 0,
                "pbkdf2_sha256": 0, "pbkdf2_sha512": 0, "phpass": 0, "scrypt": 0, "django_pbkdf2_sha256": 0, "bsdi_crypt": 0, "fshp": 1,
-               "django_pbkdf2_sha1": 0, "grub_pbkdf2_sha512": 0, "sun_md5_crypt": 0}
+               "django_pbkdf2_sha1": 0, "grub_pbkdf2_sha512": 0, "sun_md5_crypt": 0, "dlitz_pbkdf2_sha1": 0}
 
 
 def cost_of(s, scheme):
